@@ -11,6 +11,7 @@ import EinoV.Proofs.C02Run
 import EinoV.Proofs.C02Compile
 import EinoV.Proofs.C02CompileWF
 import EinoV.Proofs.C02CompileWWF
+import EinoV.Proofs.C02Settled
 import EinoV.Proofs.C02Eager
 import EinoV.Proofs.C02Just
 import EinoV.Proofs.C02Complete
@@ -643,5 +644,33 @@ theorem workflowdef_wf_check_sound {V} (ops : ValOps V) (w : WorkflowDef V)
 
 example : EinoV.Engine.DagRun.workflowDefWFb natOps wDiamond = true := by decide
 example : EinoV.Engine.DagRun.workflowDefWFb natOps wBranch = true := by decide
+
+/-! ### when a run returns, nothing END depends on is still pending -/
+
+open EinoV.Engine.DagRun in
+/-- **dag_return_means_ancestors_settled.** When a run of a well-formed acyclic all-predecessor
+    runner returns a value, under any fair completion schedule, *every control ancestor of END*
+    (`AncEnd`: a declared control predecessor of END, or of another ancestor) has completed, or is
+    skipped (`Settled`): the engine never returns while a node END transitively waits for is
+    still to run.  (START has no predecessors: `hs`, a clause of `DagWF3`.) -/
+theorem dag_return_means_ancestors_settled {V} (ops : ValOps V) (r : Runner V) (wf : DagWF r)
+    (hs : lookupList START r.ctrlPreds = []) (sched : Sched V) (hf : sched.Fair) (x v : V)
+    (hres : (runS ops r sched x).result = .ok v) (p : Key) (ha : AncEnd r p) :
+    Settled r (histOf r x (runS ops r sched x).trace.reverse) p :=
+  run_ancestors_settled ops r wf hs sched hf x v hres p ha
+
+open EinoV.Engine.DagRun in
+/-- **workflow_return_means_ancestors_settled.** The same for the eager loop of Workflows and every
+    completion order; here the history is that of the *submitted* tasks (a task submitted whose body
+    succeeds), the superset of the processed completions the justification theorem speaks about. -/
+theorem workflow_return_means_ancestors_settled {V} (ops : ValOps V) (r : Runner V) (wf : DagWF r)
+    (hs : lookupList START r.ctrlPreds = []) (pick : Pick V) (x v : V)
+    (hres : (runEager ops r pick x).result = .ok v) (p : Key) (ha : AncEnd r p) :
+    Settled r (histOf r x (runEager ops r pick x).batches.reverse) p :=
+  runEager_ancestors_settled ops r wf hs pick x v hres p ha
+
+/-- non-vacuity: in the diamond, `a` is a control ancestor of END (through `d`) -/
+example : EinoV.Engine.DagRun.AncEnd rDiamond "a" :=
+  .step "a" "d" (.base "d" (by decide)) (by decide)
 
 end EinoV.C02
